@@ -89,7 +89,10 @@ def _get_active_realizations(
 ) -> tuple[NDArray[np.bool_] | None, NDArray[np.bool_] | None]:
     if objective_weights is None:
         active_realizations = np.abs(config.realizations.weights) > 0
-        if np.all(active_realizations):
+        # Realization filters rank the values of all realizations, and may give
+        # weight to realizations with a zero configured weight, hence none of
+        # them can be skipped:
+        if np.all(active_realizations) or config.realization_filters:
             return None, None
         active_objectives = np.broadcast_to(
             active_realizations,
